@@ -96,6 +96,8 @@ fn prop(c: &WorldCase, obs: &mut Obs) -> CaseResult {
 }
 
 pub fn run(check: &mut Check) {
+    // every shrink step is a compiler run
+    vcommon::SHRINK_ITERS.store(150, std::sync::atomic::Ordering::Relaxed);
     check.rule = "generated worlds within the C backend's declared feature set (adversarial names: C keywords, names that collide after mangling, generator temporaries) + the corpus minus crates/test/src/c.rs exclusions x {default, --no-sig-flattening, --autodrop-borrows=yes, --string-encoding=utf16, --async=all}: the generated C is compiled with clang --target=wasm32-unknown-unknown (implicit declarations are errors), linked by wasm-ld with its *_component_type.o, encoded by wit_component::ComponentEncoder, validated, decoded again; \
         oracle: every step succeeds, the decoded component exports exactly the requested world's exports with identical function types and imports a subset of its imports; non-trivial = world with escaped names or >= 2 interfaces; distinct by (WIT, variant)".into();
     check.assumptions.push("a four-header libc shim and a bump allocator stand in for wasi-libc; unimplemented export bodies are resolved by wasm-ld to trapping stubs (--unresolved-symbols=ignore-all), so imports are only checked as a subset".into());
@@ -148,7 +150,8 @@ pub fn run(check: &mut Check) {
             judge(&files, &resolve, world, "default", wit, obs)
         });
     }
-    let n = check.tier.pick(160, 20_000);
+    // (a world costs a clang + wasm-ld run: ~4000 worlds are about half an hour on 16 cores)
+    let n = check.tier.pick(160, 4_000);
     check.prop("worlds", || (tape_strategy(700), Just(0u8), any::<u8>()).prop_map(|(tape, backend, variant)| WorldCase { tape, backend, variant }), n, prop);
     wasmbuild::cleanup_shim();
 }
